@@ -2,16 +2,16 @@
 # Confirms a seeded change produced in a scratch worktree /tmp/seed/<ID> (change applied in the
 # worktree, results in /tmp/seed/<ID>-out): existing suite passes with the change, the
 # demonstration fails with it and passes without it.  Then stores it under /verif/seeded/<ID>/.
-id=$1; wt=/tmp/seed/$id; out=/tmp/seed/$id-out
+id=$1; feat=${2:-}; wt=/tmp/seed/$id; out=/tmp/seed/$id-out
 set -u
 cd $wt || exit 2
 lc=$(echo $id | tr A-Z a-z)
-git checkout -q -- . ; git apply $out/patch.diff || { echo "patch does not apply"; exit 2; }
-echo "== suite with change"; cargo test --workspace --offline 2>&1 | grep -E "^test result" 
+rm -rf tests; git checkout -q -- . ; git apply $out/patch.diff || { echo "patch does not apply"; exit 2; }
+echo "== suite with change"; cargo test --workspace --offline $feat 2>&1 | grep -E "^test result" 
 mkdir -p tests; cp $out/demo.rs tests/demo_$lc.rs
-echo "== demo with change (must fail)"; cargo test --offline --test demo_$lc 2>&1 | grep -E "^test result|panicked" | head -5
+echo "== demo with change (must fail)"; cargo test --offline $feat --test demo_$lc 2>&1 | grep -E "^test result|panicked" | head -5
 git stash -q -- src
-echo "== demo without change (must pass)"; cargo test --offline --test demo_$lc 2>&1 | grep -E "^test result" | head -3
+echo "== demo without change (must pass)"; cargo test --offline $feat --test demo_$lc 2>&1 | grep -E "^test result" | head -3
 git stash pop -q
 rm -rf tests
 mkdir -p /verif/seeded/$id; cp $out/patch.diff $out/demo.rs /verif/seeded/$id/; cp $out/meta.json /verif/seeded/$id/meta.agent.json
